@@ -55,7 +55,7 @@ func prepDataVSF32(a Tensor, b interface{}, reuse Tensor) (dataA *storage.Header
 		dataReuse = reuse.hdr()
 	}
 
-	if a.RequiresIterator() || (reuse != nil && reuse.RequiresIterator()) {
+	if a.RequiresIterator() || (reuse != nil && (reuse.RequiresIterator() || !reuse.DataOrder().HasSameOrder(a.DataOrder()))) {
 		ait = a.Iterator()
 		if reuse != nil {
 			iit = reuse.Iterator()
@@ -128,6 +128,12 @@ func (e Float32Engine) FMA(a, x, y Tensor) (retVal Tensor, err error) {
 	if err = e.checkThree(a, x, reuse); err != nil {
 		return nil, errors.Wrap(err, "Failed checks")
 	}
+	if !a.Shape().Eq(x.Shape()) {
+		return nil, errors.Errorf(shapeMismatch, a.Shape(), x.Shape())
+	}
+	if reuse.Shape().TotalSize() != a.Shape().TotalSize() {
+		return nil, errors.Errorf(shapeMismatch, a.Shape(), reuse.Shape())
+	}
 
 	var dataA, dataB, dataReuse *storage.Header
 	var ait, bit, iit Iterator
@@ -151,6 +157,9 @@ func (e Float32Engine) FMAScalar(a Tensor, x interface{}, y Tensor) (retVal Tens
 	if err = e.checkTwo(a, reuse); err != nil {
 		return nil, errors.Wrap(err, "Failed checks")
 	}
+	if reuse.Shape().TotalSize() != a.Shape().TotalSize() {
+		return nil, errors.Errorf(shapeMismatch, a.Shape(), reuse.Shape())
+	}
 
 	var ait, iit Iterator
 	var dataTensor, dataReuse *storage.Header
@@ -173,7 +182,9 @@ func (e Float32Engine) FMAScalar(a Tensor, x interface{}, y Tensor) (retVal Tens
 // Add performs a + b elementwise. Both a and b must have the same shape.
 // Acceptable FuncOpts are: UseUnsafe(), WithReuse(T), WithIncr(T)
 func (e Float32Engine) Add(a Tensor, b Tensor, opts ...FuncOpt) (retVal Tensor, err error) {
-	if a.RequiresIterator() || b.RequiresIterator() {
+	// the fast path below adds the raw data of two contiguous tensors of the same shape.
+	// Anything else is left to the default engine, which iterates or reports the shape mismatch.
+	if a.RequiresIterator() || b.RequiresIterator() || !a.Shape().Eq(b.Shape()) {
 		return e.StdEng.Add(a, b, opts...)
 	}
 
@@ -188,9 +199,14 @@ func (e Float32Engine) Add(a Tensor, b Tensor, opts ...FuncOpt) (retVal Tensor, 
 
 	var hdrA, hdrB, hdrReuse *storage.Header
 	var dataA, dataB, dataReuse []float32
+	var useIter bool
 
-	if hdrA, hdrB, hdrReuse, _, _, _, _, _, err = prepDataVV(a, b, reuse); err != nil {
+	if hdrA, hdrB, hdrReuse, _, _, _, useIter, _, err = prepDataVV(a, b, reuse); err != nil {
 		return nil, errors.Wrapf(err, "Float32Engine.Add")
+	}
+	if useIter {
+		// the data orders differ, or the reuse tensor is not contiguous
+		return e.StdEng.Add(a, b, opts...)
 	}
 	dataA = hdrA.Float32s()
 	dataB = hdrB.Float32s()
